@@ -216,6 +216,8 @@ def _comment_between(src, tok, elem_nodes, removed_idx):
 
 
 def _mk_tok(cid, opname, k, trivia_false):
+    trivia_all = trivia_false == 'all'
+    trivia_false = trivia_false is True
     c = pc.CARRIER[cid]
 
     def fn(a: int, b: int):
@@ -230,10 +232,12 @@ def _mk_tok(cid, opname, k, trivia_false):
         else:
             i_ = pc.ref_index(x.n, a)
             span = None if i_ is None else (i_, i_ + 1)
-        sig = f'{cid}.{opname}[{k}]' + ('.trivia_false' if trivia_false else '')
+        sig = f'{cid}.{opname}[{k}]' + ('.trivia_false' if trivia_false else '.trivia_all' if trivia_all else '')
         opts = dict(pc.OPTS)
         if trivia_false:
             opts['trivia'] = (False, False)
+        if trivia_all:
+            opts['trivia'] = ('all', 'all')
         try:
             with FST.options(**opts):
                 run()
@@ -293,7 +297,18 @@ def _mk_tok(cid, opname, k, trivia_false):
                 allowed = set(range(lo, hi + 1))       # lines of the removed span incl. comments between removed elements
                 if c.field == 'orelse' and len(removed_idx) == len(x.old) and lo >= 2 and src_lines[lo - 2].lstrip().startswith('else'):
                     allowed.add(lo - 1)                      # the whole else block goes (or becomes an elif): its `else:` header line goes with it (as for a removed handler)
-                if not trivia_false:
+                if trivia_all:                               # 'all': every comment between the neighbouring elements may go with the removed ones
+                    p_end = elem_nodes[removed_idx[0] - 1][1] if removed_idx[0] > 0 else getattr(cont, 'lineno', 0)
+                    n_start = elem_nodes[removed_idx[-1] + 1][0] if removed_idx[-1] + 1 < len(x.old) else len(src_lines) + 1
+                    l = lo - 1
+                    while l > p_end and l >= 1 and (not src_lines[l - 1].strip() or src_lines[l - 1].strip().startswith('#')):
+                        allowed.add(l)
+                        l -= 1
+                    l = hi + 1
+                    while l < n_start and l <= len(src_lines) and (not src_lines[l - 1].strip() or src_lines[l - 1].strip().startswith('#')):
+                        allowed.add(l)
+                        l += 1
+                elif not trivia_false:
                     l = lo - 1                               # default trivia: + the comment block directly above, + the line comment after it
                     while l >= 1 and src_lines[l - 1].strip().startswith('#'):
                         allowed.add(l)
@@ -349,11 +364,11 @@ for _c in pc.CARRIERS:
     if '#' not in _c.src:
         continue
     for _op, _k in (('put_slice', 0), ('put_slice', 1), ('put_slice', 2), ('insert', 1), ('view_setitem', 1)):
-        for _tf in (True, False):
-            CELLS.append(Cell(f'P1.{_c.id}.{_op}[{_k}]' + ('.trivia_false' if _tf else ''), _mk_tok(_c.id, _op, _k, _tf), 'P', pc.FN_EDIT + FNT,
-                              f'carrier {_c.id} (comments around the elements); op {_op}[{_k}] with symbolic ints over Z; trivia={"(False, False)" if _tf else "default"}; '
+        for _tf in (True, False, 'all'):
+            CELLS.append(Cell(f'P1.{_c.id}.{_op}[{_k}]' + ('.trivia_false' if _tf is True else '.trivia_all' if _tf else ''), _mk_tok(_c.id, _op, _k, _tf), 'P', pc.FN_EDIT + FNT,
+                              f'carrier {_c.id} (comments around the elements); op {_op}[{_k}] with symbolic ints over Z; trivia={"(False, False)" if _tf is True else "('all', 'all')" if _tf else "default"}; '
                               'tokenize-based accounting of COMMENT/NAME/NUMBER/STRING tokens and byte-identity of lines outside the container',
-                              tier='quick' if _c.id in _QC and ((_op, _k, _tf) in (('put_slice', 0, False), ('put_slice', 2, True), ('put_slice', 0, True)) or (_c.id in ('list4c', 'decos') and (_op, _k, _tf) == ('put_slice', 2, False))) else 'thorough',
+                              tier='quick' if _c.id in _QC and ((_op, _k, _tf) in (('put_slice', 0, False), ('put_slice', 2, True), ('put_slice', 0, True), ('put_slice', 0, 'all')) or (_c.id in ('list4c', 'decos') and (_op, _k, _tf) == ('put_slice', 2, False))) else 'thorough',
                               budget=600, per_path=60, out='alignment aesthetics of multi-line slices (unspecified)', reset=pc.reset_globals))
 
 
